@@ -113,6 +113,13 @@ func credMutations() []credMut {
 		{"unbound-credential-id", true, func(c *ACred, r *Rng) bool { c.ID = fmt.Sprintf("urn:uuid:%08x-other", r.Intn(1<<30)); return true }},
 		{"issuer", true, func(c *ACred, r *Rng) bool { c.Issuer = randDID(r); return true }},
 		{"status-nonce", true, func(c *ACred, r *Rng) bool { c.RevNonce++; return true }},
+		// a statement whose object is a node nothing is said about ({} and friends, under a key that is an absolute IRI):
+		// it is a statement of the credential all the same - the document with it is another document
+		{"empty-node-statement-added", true, func(c *ACred, r *Rng) bool {
+			vals := []any{map[string]any{}, []any{map[string]any{}, map[string]any{}}, map[string]any{"urn:extra:inner": nil}, []any{map[string]any{}}}
+			c.ExtraSubject = append(c.ExtraSubject, KV{fmt.Sprintf("urn:extra:prop%d", r.Intn(1000)), vals[r.Intn(len(vals))]})
+			return true
+		}},
 		{"field-removed", false, func(c *ACred, r *Rng) bool {
 			if len(c.Fields) < 2 {
 				return false
@@ -284,6 +291,7 @@ func copyExported(dst, src *verifiable.W3CCredential, except ...string) {
 func cloneCred(c *ACred) *ACred {
 	c2 := *c
 	c2.Fields = append([]CField{}, c.Fields...)
+	c2.ExtraSubject = append([]KV{}, c.ExtraSubject...)
 	if c.Expiration != nil {
 		t := *c.Expiration
 		c2.Expiration = &t
